@@ -4,6 +4,7 @@
    free of data races under sequentially consistent interleavings (DRF-SC), so interleavings suffice. *)
 From Coq Require Import List String Bool.
 Require Import Model.Conc Gen.EmuSkeleton Proofs.ConcProofs Tie.TranslationOk.
+Require Import Base.Bytes Base.GoBytes Model.Config Spec.ConfigSpec Proofs.ConfigProofs Gen.ConfFns Tie.ConfAgree.
 Import ListNotations.
 
 (* metatheory, proved once: disciplined code has no race and no write critical section overlapping any other critical
@@ -44,6 +45,18 @@ Proof.
   exact (disciplined_paths _ _ _ D Hpath).
 Qed.
 Print Assumptions C17_emulator_race_free.
+
+(* "whole new": what the receive loop stores inside its critical section - the GENERATED OutputConfiguration.Unmarshal
+   applied to the configuration the emulator held before (any contents, length n, capacity) - is the decoding of the
+   command's payload alone: no component of the previous configuration survives in any slot *)
+Theorem C17_installed_configuration_is_the_commands : forall bk n data, wf_bytes data -> (0 <= n <= Z.of_nat (length bk))%Z ->
+  exists o', g_OutputConfiguration_Unmarshal (bk, n) data = Val (None, o') /\
+             firstn (Z.to_nat (snd o')) (fst o') = map decode_group (groups4 data).
+Proof.
+  intros bk n data Hw Hn. destruct (unmarshal_conf_agrees bk n data Hw Hn) as (o' & H1 & H2).
+  exists o'. split; [exact H1|]. rewrite H2. exact (proj1 (unmarshal_positional bk data Hw)).
+Qed.
+Print Assumptions C17_installed_configuration_is_the_commands.
 
 (* non-vacuity: the pinned (pre-fix) Transmit is rejected by the check, the repaired one accepted; a real path *)
 Example C17_example :
